@@ -49,3 +49,44 @@ Proof.
   destruct Hok as (mid & Hm & ->). rewrite !len_app, !len_le, Hm. cbn [N.of_nat Pos.of_succ_nat Pos.succ]. lia.
 Qed.
 Print Assumptions C17_reader_sees_aligned.
+
+(* ---------- user extra data lands where requested, verbatim.
+   start_file_with_extra_data, write_all of the extra data x, end_extra_data -- for a stored, unencrypted, non-large
+   entry on a well-behaved sink (anything written before: b), and every x the validation accepts (complete records,
+   no ZIP64 id, no reserved id: C17_validation; at most 65,535 bytes):
+   - the three calls succeed; the first returns the offset right behind the name, the last the offset behind x;
+   - the sink is  b ++ local header ++ name ++ x : the bytes of x verbatim between the name and the data, the header's
+     extra-length field = |x| (so the reader's find_content puts the data right behind x);
+   - the record kept for the central directory carries the same x (rendered into the central record and returned by
+     the reader's extra_data(): C01_central_record_roundtrip). *)
+From ZipV Require Import Proofs.ExtraVerbatim.
+Theorem C17_extra_data_verbatim : forall enc crc s s1 b name o hdr x rest g,
+  finish_file enc crc s = (s1, Ok tt) -> ws_inner s1 = WStorer (at_end b) -> ws_central_only s1 = false ->
+  len name <= 65535 -> stored_opts o ->
+  local_header_chunks (mk_wfile name (with_perm o 420 32768) None (len b)) = Ok hdr ->
+  len x <= 65535 -> validate_records (S (length x)) x = Ok tt ->
+  f_header_start g = len b -> len b + 30 + 65535 + 65535 < 2 ^ 64 ->
+  exists sA sB sC lh f t,
+    start_file_with_extra_data enc crc s name o = (sA, Ok (len b + 30 + len name)) /\
+    zw_write_all sA x = (sB, Ok tt) /\
+    end_extra_data enc sB = (sC, Ok (len b + 30 + len name + len x)) /\
+    ws_inner sC = WStorer (at_end (b ++ lh ++ name ++ x)) /\
+    find_content ((b ++ lh ++ name ++ x) ++ rest) g = Ok (len b + 30 + len name + len x, t) /\
+    ws_files sC = ws_files s1 ++ [f] /\ w_extra f = x /\ w_name f = name /\ w_header_start f = len b.
+Proof.
+  intros enc crc s s1 b name o hdr x rest g Hff Hin Hco Hn Ho Hh Hxl Hxv Hhs Hfit.
+  destruct (extra_data_verbatim enc crc s s1 b name o hdr x Hff Hin Hco Hn Ho Hh Hxl Hxv)
+    as (sA & sB & sC & lh & f & HA & HB & HC & Hsink & Hok & Hfs & Hfx & Hfn & _ & Hfh & _).
+  pose proof (find_content_rendered b lh name x [] rest g Hok Hn Hxl Hhs) as Hfc.
+  rewrite app_nil_l in Hfc.
+  exists sA, sB, sC, lh, f. eexists.
+  replace ((b ++ lh ++ name ++ x) ++ rest) with (b ++ lh ++ name ++ x ++ rest) by (rewrite <- !app_assoc; reflexivity).
+  split; [exact HA|]. split; [exact HB|]. split; [exact HC|]. split; [exact Hsink|].
+  split; [apply Hfc; lia|]. repeat split; assumption.
+Qed.
+Print Assumptions C17_extra_data_verbatim.
+
+(* non-vacuity: a record with the unreserved id 0xbeef and three data bytes passes the validation *)
+Example C17_valid_extra_example :
+  let x := [xef; xbe; x03; x00; x01; x02; x03] in len x <= 65535 /\ validate_records (S (length x)) x = Ok tt.
+Proof. split; [vm_compute; discriminate|vm_compute; reflexivity]. Qed.
